@@ -70,7 +70,7 @@ top:
 		}
 		result = tv
 	default:
-		result = value
+		result = dupLiteral(value)
 	}
 	return
 }
